@@ -557,6 +557,8 @@ fn case_find_with(seed: u64, idx: usize, suite: &str, preset: Option<(Vec<ModeSp
         let input = if i_in >= 6 { preset_inputs[i_in - 6].clone() } else { cfggen::gen_input(&mut r, &dump, &tables, 6) };
         let mut rx = Rng::derive(seed ^ 0xe0e0_71c5, (idx * 13 + input.len()) as u64);
         let input = if rx.chance(25) { cfggen::sprinkle_exotic(&mut rx, &input) } else { input };
+        let mut rn = Rng::derive(seed ^ 0x0000_71c5, (idx * 13 + input.len()) as u64);
+        let input = if rn.chance(8) { cfggen::inject_nul(&mut rn, &input) } else { input };
         st.inputs += 1;
         let _ = writeln!(out, "input{}", proto::cps(&input));
         for m in 0..dump.modes.len() {
@@ -812,6 +814,11 @@ fn case_iter(seed: u64, idx: usize, suite: &str, cache: &TableCache, out: &mut S
         let mut rx = Rng::derive(seed ^ 0xe0e0_17e2, (idx * 11 + input.len()) as u64);
         if rx.chance(25) {
             input = cfggen::sprinkle_exotic(&mut rx, &input);
+        }
+        let mut rn = Rng::derive(seed ^ 0x0000_17e2, (idx * 11 + input.len()) as u64);
+        if rn.chance(8) {
+            input = cfggen::inject_nul(&mut rn, &input);
+            st.count("inputs_with_nul_characters", 1);
         }
         // C09: now and then an input of 35 to 80 lines
         let many_lines = suite == "C09" && rx.chance(12);
@@ -1086,7 +1093,75 @@ fn equiv_case(idx: usize, spec: &[ModeSpec], cache: &TableCache, rcache: &RefCac
     }
 }
 
+/// C02 (extra cases): character classes that differ in exactly one attribute, side by side in one
+/// scanner (one class registry): negation of a POSIX item, of a Perl or Unicode class, of a
+/// bracket; the kind of a set operation; escaped and plain spellings.
+fn c02_class_twins(seed: u64, idx: usize, cache: &TableCache, rcache: &RefCache, out: &mut String, st: &mut Stats) {
+    let mut r = Rng::derive(seed ^ 0x0c02_7817, idx as u64);
+    const POSIX: [&str; 14] = ["alpha", "digit", "alnum", "upper", "lower", "space", "punct", "xdigit", "word", "blank", "cntrl", "graph", "print", "ascii"];
+    let twins = |r: &mut Rng| -> Vec<String> {
+        match r.below(9) {
+            0 | 1 => {
+                let k = r.pick(&POSIX).to_string();
+                vec![format!("[[:{}:]]", k), format!("[[:^{}:]]", k)]
+            }
+            2 => {
+                let k = r.pick(&POSIX).to_string();
+                let k2 = r.pick(&POSIX).to_string();
+                vec![format!("[[:{}:]_]", k), format!("[[:^{}:]_]", k), format!("[[:{}:]_]", k2), format!("[^[:{}:]_]", k)]
+            }
+            3 => {
+                let c = *r.pick(&['d', 's', 'w']);
+                vec![format!("\\{}", c), format!("\\{}", c.to_ascii_uppercase()), format!("[\\{}_]", c), format!("[\\{}_]", c.to_ascii_uppercase())]
+            }
+            4 => {
+                let c = *r.pick(&['L', 'N', 'Z', 'P', 'C']);
+                vec![format!("\\p{}", c), format!("\\P{}", c), format!("[\\p{}a]", c), format!("[\\P{}a]", c)]
+            }
+            5 => {
+                let (a, b) = (*r.pick(&['a', 'b', 'c']), *r.pick(&['x', 'y', 'z']));
+                vec![format!("[{}-{}]", a, b), format!("[^{}-{}]", a, b), format!("[{}{}]", a, b), format!("[^{}{}]", a, b)]
+            }
+            6 => {
+                let x = *r.pick(&["a-m", "\\w", "a-z0-9"]);
+                let y = *r.pick(&["c-x", "\\d", "e"]);
+                vec![format!("[{}&&{}]", x, y), format!("[{}--{}]", x, y), format!("[{}~~{}]", x, y), format!("[{}{}]", x, y)]
+            }
+            7 => vec!["\\.".to_string(), ".".to_string(), "[.]".to_string(), "[\\.]".to_string()],
+            _ => {
+                let c = *r.pick(&['a', 'b', 'ß']);
+                vec![c.to_string(), format!("[{}]", c), format!("[^{}]", c), format!("\\x{{{:x}}}", c as u32)]
+            }
+        }
+    };
+    let n_modes = 1 + r.below(2);
+    let mut spec = Vec::new();
+    let mut tid = 0;
+    for m in 0..n_modes {
+        let mut pats = Vec::new();
+        for _ in 0..(1 + r.below(2)) {
+            let mut tw = twins(&mut r);
+            if r.chance(50) {
+                tw.reverse();
+            }
+            for t in tw {
+                let rep = *r.pick(&["", "+", "+", "{2}"]);
+                // now and then the twin is the lookahead of the previous pattern
+                let la = if r.chance(12) { Some((r.chance(50), t.clone())) } else { None };
+                pats.push(PatSpec { pattern: format!("{}{}", t, rep), tid, lookahead: la });
+                tid += 1;
+            }
+        }
+        spec.push(ModeSpec { name: format!("M{}", m), patterns: pats, transitions: vec![] });
+    }
+    st.count("scanners_with_class_twins", 1);
+    equiv_case(idx, &spec, cache, rcache, out, st);
+}
+
 fn case_c02(seed: u64, idx: usize, cache: &TableCache, rcache: &RefCache, out: &mut String, st: &mut Stats) {
+    if idx >= EXTRA_BASE {
+        return c02_class_twins(seed, idx, cache, rcache, out, st);
+    }
     let mut r = Rng::derive(seed, idx as u64);
     let pc = ProgCfg { max_modes: 2, max_patterns: 5, lookahead: 25, nullable: true, transitions: false, big_tids: true };
     let spec = cfggen::gen_program(&mut r, &pc);
@@ -1113,6 +1188,22 @@ fn write_dfa_lines(out: &mut String, d: &scnr::verif::DfaDump) {
 fn c03_case(idx: usize, spec: &[ModeSpec], cache: &TableCache, out: &mut String, st: &mut Stats) {
     let modes = cfggen::to_modes(spec);
     st.cases += 1;
+    // "for every automaton produced while a scanner is built", whatever was built before in this
+    // process: a sibling configuration with the same automaton shapes and a coarser assignment of
+    // token types (all patterns of a mode share one) is compiled first, not logged
+    if idx % 2 == 0 && spec.iter().any(|m| m.patterns.len() >= 2) {
+        let mut sib = spec.to_vec();
+        for m in sib.iter_mut() {
+            let t = m.patterns.first().map(|p| p.tid).unwrap_or(0);
+            for p in m.patterns.iter_mut() {
+                p.tid = t;
+                p.lookahead = None;
+            }
+            m.transitions.clear();
+        }
+        let _ = catch_unwind(AssertUnwindSafe(|| ScannerBuilder::new().add_scanner_modes(&cfggen::to_modes(&sib)).build_uncached()));
+        st.count("coarser_sibling_compiled_first", 1);
+    }
     scnr::verif::set_minimizer_log(true);
     let _ = scnr::verif::take_minimizer_log();
     let built = catch_unwind(AssertUnwindSafe(|| {
@@ -1603,6 +1694,16 @@ fn case_c12(seed: u64, idx: usize, cache: &TableCache, out: &mut String, st: &mu
             }
         }
     }
+    // U+0000, preferably as the very first character a fresh compilation ever sees
+    let mut rn = Rng::derive(seed ^ 0x0c12_0000, idx as u64);
+    if rn.chance(30) {
+        for i in 0..inputs.len() {
+            if i == 0 || rn.chance(40) {
+                inputs[i] = cfggen::inject_nul(&mut rn, &inputs[i]);
+            }
+        }
+        st.count("cases_with_nul_characters", 1);
+    }
     st.inputs += inputs.len();
     let n_modes = a.len().min(b.len());
     let mut ops: Vec<WOp> = vec![
@@ -1743,6 +1844,46 @@ fn mutate_cfg(r: &mut Rng, base: &[ModeSpec]) -> Vec<ModeSpec> {
                 }
                 mode.transitions[0].1 += 1;
             }
+        }
+    }
+    // the boundary between two adjacent texts of the configuration moves by one character:
+    // `a(?=bc)`, `d` / `a(?=b)`, `cd`; `ab(?=c)` / `a(?=bc)`; `ab`, `c` / `a`, `bc`; name `M0a`, `b` / `M0`, `ab`
+    if r.chance(18) {
+        let np = c[m].patterns.len();
+        let kind = r.below(4);
+        let p = r.below(np);
+        let pop = |t: &mut String| -> Option<char> { if t.chars().count() >= 2 { t.pop() } else { None } };
+        let mut done = false;
+        if kind == 0 && p + 1 < np {
+            if let Some((_, la)) = c[m].patterns[p].lookahead.as_mut() {
+                if let Some(x) = pop(la) {
+                    c[m].patterns[p + 1].pattern.insert(0, x);
+                    done = true;
+                }
+            }
+        }
+        if !done && kind <= 1 {
+            if c[m].patterns[p].lookahead.is_some() {
+                if let Some(x) = pop(&mut c[m].patterns[p].pattern) {
+                    c[m].patterns[p].lookahead.as_mut().unwrap().1.insert(0, x);
+                    done = true;
+                }
+            }
+        }
+        if !done && kind <= 2 && p + 1 < np && c[m].patterns[p].lookahead.is_none() {
+            if let Some(x) = pop(&mut c[m].patterns[p].pattern) {
+                c[m].patterns[p + 1].pattern.insert(0, x);
+                done = true;
+            }
+        }
+        if !done {
+            if let Some(x) = pop(&mut c[m].name) {
+                c[m].patterns[0].pattern.insert(0, x);
+                done = true;
+            }
+        }
+        if done {
+            return c;
         }
     }
     match r.below(7) {
@@ -2460,6 +2601,41 @@ fn case_c15(seed: u64, idx: usize, out: &mut String, st: &mut Stats) {
             spec[m].patterns[p].pattern = text.clone();
         }
     }
+    // an unsupported construct right behind its supported twin spelling, which is registered first
+    // (earlier in the pattern, in an earlier pattern or mode, or as the pattern of the lookahead)
+    let mut r4 = Rng::derive(seed ^ 0x0c15_7717, idx as u64);
+    if r4.chance(12) {
+        const PAIRS: [(&str, &str); 12] = [
+            ("\\pL", "\\p{L}"), ("\\pN", "\\p{N}"), ("\\PL", "\\P{L}"), ("\\pZ", "\\p{Z}"), ("\\p{Alphabetic}", "\\p{alphabetic}"),
+            ("\\p{White_Space}", "\\p{whitespace}"), ("\\p{Lowercase}", "\\p{Lowercase=Yes}"), ("\\pP", "\\pS"),
+            ("[\\pL]", "[\\p{L}]"), ("\\p{Uppercase}", "\\p{Lu}"), ("\\pC", "\\p{Cc}"), ("\\p{Math}", "\\p{math}"),
+        ];
+        let (good, bad) = *r4.pick(&PAIRS);
+        let rep = *r4.pick(&["", "+", "*"]);
+        let m = r4.below(spec.len());
+        let k = r4.below(spec[m].patterns.len());
+        match r4.below(4) {
+            0 => spec[m].patterns[k].pattern = format!("{}{}{}", good, bad, rep),
+            1 => {
+                spec[m].patterns[k].pattern = format!("{}+", good);
+                spec[m].patterns[k].lookahead = Some((r4.chance(50), bad.to_string()));
+            }
+            2 => {
+                spec[0].patterns[0].pattern = format!("{}{}", good, rep);
+                let lm = spec.len() - 1;
+                let lk = spec[lm].patterns.len() - 1;
+                if (lm, lk) != (0, 0) {
+                    spec[lm].patterns[lk].pattern = format!("#{}{}", bad, rep);
+                } else {
+                    spec[0].patterns[0].pattern = format!("{}|x{}", good, bad);
+                }
+            }
+            _ => {
+                spec[m].patterns[k].pattern = format!("(?:{}|{}){}", good, bad, rep);
+            }
+        }
+        st.count("unsupported_spelling_behind_its_supported_twin", 1);
+    }
     st.cases += 1;
     // a fifth of the cases: a configuration with an attached lookahead goes through the cached
     // `build` first, then the case is its twin spelled with look-around syntax in the pattern text
@@ -2577,8 +2753,22 @@ fn case_c16(seed: u64, idx: usize, cache: &TableCache, out: &mut String, st: &mu
         }
         st.count("patterns_with_look_around_characters_in_a_class", 1);
     }
+    // extra cases: transition tables of 31 .. 260 entries (around the inline capacities of small
+    // buffers); patterns renumbered with `Pattern::set_token_type` after their construction
+    let mut r5 = Rng::derive(seed ^ 0x0c16_e7a5, idx as u64);
+    let extra = idx >= EXTRA_BASE;
+    if extra && idx % 2 == 0 {
+        let k = *r5.pick(&[31usize, 32, 33, 34, 63, 64, 65, 66, 129, 257]) + r5.below(2);
+        let m = r5.below(spec.len());
+        let nm = spec.len();
+        spec[m].transitions = (0..k).map(|t| (t * (1 + t % 2), r5.below(nm))).collect();
+        spec[m].transitions.sort();
+        spec[m].transitions.dedup_by_key(|t| t.0);
+        st.count("transition_tables_with_31_to_260_entries", 1);
+    }
+    let renumbered = extra && idx % 2 == 1;
     st.cases += 1;
-    let unsorted = r2.chance(20);
+    let unsorted = r2.chance(20) && !renumbered;
     if unsorted {
         for m in spec.iter_mut() {
             if m.transitions.len() >= 2 {
@@ -2596,10 +2786,40 @@ fn case_c16(seed: u64, idx: usize, cache: &TableCache, out: &mut String, st: &mu
             Some(m) => m,
             None => return,
         }
+    } else if renumbered {
+        // every pattern is created with another token type and renumbered afterwards (before or
+        // after its lookahead is attached)
+        st.count("patterns_renumbered_with_set_token_type", 1);
+        spec.iter()
+            .map(|m| {
+                scnr::ScannerMode::new(
+                    &m.name,
+                    m.patterns.iter().map(|p| {
+                        let mut pat = scnr::Pattern::new(p.pattern.clone(), p.tid.wrapping_add(1 + r5.below(9)));
+                        let first = r5.chance(50);
+                        if first {
+                            pat.set_token_type(p.tid);
+                        }
+                        let mut pat = match &p.lookahead {
+                            Some((pos, la)) => pat.with_lookahead(scnr::Lookahead::new(*pos, la.clone())),
+                            None => pat,
+                        };
+                        if !first {
+                            pat.set_token_type(p.tid);
+                        }
+                        pat
+                    }),
+                    m.transitions.clone(),
+                )
+            })
+            .collect()
     } else {
         cfggen::to_modes(&spec)
     };
     let _ = writeln!(out, "case {}\nexpect case {}\n# {}", idx, idx, describe(&spec).replace('\n', "\\n"));
+    if renumbered && modes != cfggen::to_modes(&spec) {
+        out.push_str("oracle FAIL modes whose patterns were renumbered with set_token_type differ from the modes built with these token types directly\nexpect oracle\n");
+    }
     // Serialize
     let mut cfg = String::new();
     jsonser::ser_cfg(&spec, &mut cfg);
@@ -2638,12 +2858,21 @@ fn case_c16(seed: u64, idx: usize, cache: &TableCache, out: &mut String, st: &mu
     // implementation-only: text round trip and behaviour of the rebuilt scanner
     let text = serde_json::to_string(&modes).unwrap();
     let back: Result<Vec<scnr::ScannerMode>, _> = serde_json::from_str(&text);
+    let back_slice: Result<Vec<scnr::ScannerMode>, _> = serde_json::from_slice(serde_json::to_vec_pretty(&modes).unwrap().as_slice());
+    let back_reader: Result<Vec<scnr::ScannerMode>, _> = serde_json::from_reader(std::io::Cursor::new(text.as_bytes()));
+    let back_value: Result<Vec<scnr::ScannerMode>, _> = serde_json::to_value(&modes).and_then(serde_json::from_value);
     let mut verdict = String::from("oracle ok");
     match back {
         Err(e) => verdict = format!("oracle FAIL from_str(to_string(modes)) fails: {}", e),
         Ok(b) => {
             if b != modes {
                 verdict = "oracle FAIL from_str(to_string(modes)) differs from modes".to_string();
+            } else if !matches!(&back_slice, Ok(x) if *x == modes) {
+                verdict = "oracle FAIL from_slice(to_vec_pretty(modes)) differs from modes".to_string();
+            } else if !matches!(&back_reader, Ok(x) if *x == modes) {
+                verdict = "oracle FAIL from_reader(to_string(modes)) differs from modes".to_string();
+            } else if !matches!(&back_value, Ok(x) if *x == modes) {
+                verdict = "oracle FAIL from_value(to_value(modes)) differs from modes".to_string();
             } else {
                 let s1 = ScannerBuilder::new().add_scanner_modes(&modes).build_uncached();
                 let s2 = ScannerBuilder::new().add_scanner_modes(&b).build_uncached();
@@ -2801,6 +3030,17 @@ fn case_c18(seed: u64, idx: usize, cache: &TableCache, out: &mut String, st: &mu
             let _ = std::fs::write(dir.join(format!("{}_{}.dot", prefix.trim_start_matches('/'), m.name)), junk);
         }
         st.count("files_existed_before", 1);
+    }
+    // a third of the scanners are logged first (`log_compiled_automata_as_dot`, a logger at level
+    // Debug is installed for this suite): the files must not depend on it
+    if r2.chance(35) {
+        match catch_unwind(AssertUnwindSafe(|| scanner.log_compiled_automata_as_dot())) {
+            Ok(Ok(())) => st.count("scanners_logged_before_the_export", 1),
+            Ok(Err(e)) => {
+                let _ = writeln!(out, "oracle FAIL log_compiled_automata_as_dot failed: {}\nexpect oracle", e.to_string().replace('\n', " "));
+            }
+            Err(_) => out.push_str("oracle FAIL log_compiled_automata_as_dot panicked\nexpect oracle\n"),
+        }
     }
     let res = catch_unwind(AssertUnwindSafe(|| scanner.generate_compiled_automata_as_dot(prefix, &dir)));
     match res {
@@ -3193,6 +3433,8 @@ const EXTRA_BASE: usize = 2_000_000;
 fn extra_cases(suite: &str, n: usize) -> usize {
     match suite {
         "C01" => n / 8,
+        "C02" => n / 6,
+        "C16" => n / 10,
         _ => 0,
     }
 }
@@ -3232,6 +3474,11 @@ fn main() {
         let mut stt = Stats::default();
         case_c13(args.seed, 0, &cache, &mut o, &mut stt);
         chunks.push((o, stt));
+    }
+    if args.suite == "C18" {
+        static DISCARD18: Discard = Discard;
+        let _ = log::set_logger(&DISCARD18);
+        log::set_max_level(log::LevelFilter::Debug);
     }
     if args.suite == "C14" {
         static DISCARD: Discard = Discard;
